@@ -29,7 +29,7 @@ def run(ck):
     # the W11 scenario (pause while a handler is parked mid-handler / before the dispatch completes) must now be accepted
     c04.run_traces(ck, "w11-scenario", "ParTrace_strict.cfg", dict(scenario="w11", engine="serial", gated=True, policy="lowkey", pauses=1, pause_mid=True),
                    key_extra={"class": "serial_pause_flag_only"})
-    given = c04.sample_programs(ck, 60 if q else 600)
+    given = c04.sample_programs(ck, 60 if q else 400)
     # serial engine, W11 class tolerated, everything else strict
     c04.run_traces(ck, "serial-gated", "ParTrace_strict.cfg", dict(engine="serial", gated=True, policy="random", pauses=2,
                                                                   given=given, programs=10 if q else 100, max_events=30))
@@ -37,6 +37,6 @@ def run(ck):
     c04.run_traces(ck, "parallel-gated", "ParTrace_parallel.cfg", dict(engine="parallel", procs_cycle=True, gated=True, policy="random", pauses=2,
                                                                       given=given, programs=10 if q else 100, max_events=30))
     c04.run_traces(ck, "parallel-free", "ParTrace_parallel.cfg", dict(engine="parallel", procs_cycle=True, gated=False, spin=30, pauses=3,
-                                                                     programs=40 if q else 800, max_events=150))
+                                                                     programs=40 if q else 400, max_events=150))
     c04.run_traces(ck, "serial-free", "ParTrace_strict.cfg", dict(engine="serial", gated=False, spin=30, pauses=3,
-                                                                  programs=40 if q else 800, max_events=150))
+                                                                  programs=40 if q else 400, max_events=150))
